@@ -389,9 +389,14 @@ func (in *interp) visitInstr(fr *frame, instr ssa.Instruction) bool {
 		case bool:
 			b = c
 		case Sym:
-			if v, ok := in.tryIfConvert(fr, instr, c); ok {
-				_ = v
+			if _, ok := in.tryIfConvert(fr, instr, c); ok {
 				return false
+			}
+			if in.tryChain(fr, instr, c) {
+				return false
+			}
+			if in.cfg.profile {
+				in.cfg.noteSite(fr.fn.String() + ":" + in.posString(instr.Cond.Pos()))
 			}
 			b = in.truth(c)
 		}
